@@ -198,7 +198,7 @@ func run() int {
 			_ = os.MkdirAll(shardScratch, 0o755)
 			cmd.Env = goEnv(append(append([]string{
 				"VERIF_OUT=" + outFile, "VERIF_ROOT=" + R, "VERIF_SCRATCH=" + shardScratch,
-				"VERIF_TIER=" + *tier, "VERIF_SHARD=" + strconv.Itoa(i), "VERIF_PROPERTY=" + id, "VERIF_PART=" + pt.Name,
+				"VERIF_TIER=" + *tier, "VERIF_SHARD=" + strconv.Itoa(i), "VERIF_SHARDS=" + strconv.Itoa(tc.Shards), "VERIF_PROPERTY=" + id, "VERIF_PART=" + pt.Name,
 				"VERIF_CASES=" + strconv.Itoa(cases), "VERIF_RSEED=" + strconv.FormatUint(sd, 10), "TMPDIR=" + shardScratch,
 			}, pt.Env...), env...)...)
 			var buf bytes.Buffer
